@@ -16,6 +16,10 @@ ASSUMPTIONS = [
     "Go map iteration order is arbitrary: the model encodes map entries in list order, theorems quantify over that order",
     "extraction: ExtrOcamlBasic only; N, Z, positive, nat stay Coq datatypes",
     "io.ReadFull / io.CopyN over ParseReader.Read are modelled as one read of n bytes (readn)",
+    "wire domain of the round-trip statement (Spec.wf_value): required natural/fixedUint/time/string fields present; fixedUint values fit their width; "
+    "durations are whole non-negative milliseconds below 2^63 ns; no nil element in a sequence or map; a signature value is absent or non-empty (its length is "
+    "the encoder input X_estLen, set for nested models too); an Interest name given to the encoder does not end in a ParametersSha256Digest component; map keys "
+    "distinct; bytes < 256; type numbers < 2^64; encoding shorter than 2^63 bytes",
 ]
 
 
